@@ -723,12 +723,30 @@ func (env *specEnv) call(e *Expr) specVal {
 			}
 			_, dcomp := vc.S.mapComps(mt)
 			return ghost(and(not(eq(m.T, "0")), sel(sel(env.heap(dcomp), m.T), k.T)), "Bool")
+		case "dom":
+			// raw domain read of a map (no nil-map test): meant for triggers
+			m, k := env.tr(args[0]), env.tr(args[1])
+			mt, ok := m.Typ.Underlying().(*types.Map)
+			if !ok {
+				sfail("dom() on non-map")
+			}
+			_, dcomp := vc.S.mapComps(mt)
+			return ghost(sel(sel(env.heap(dcomp), m.T), k.T), "Bool")
 		case "wrap64":
 			x := env.tr(args[0])
 			return ghost(wrapInt(types.Typ[types.Int64], x.T), "Int")
 		case "in64":
 			x := env.tr(args[0])
 			return ghost("(and (<= (- 9223372036854775808) "+x.T+") (<= "+x.T+" 9223372036854775807))", "Bool")
+		case "sentFinal", "sentCount":
+			// ghost state of a channel producer (by channel name)
+			if len(args) != 1 || args[0].Op != "ident" {
+				sfail("%s(<channel name>)", name)
+			}
+			if name == "sentFinal" {
+				return ghost(vc.heapOf(env.cur, vc.ghostBool("ChanFinal_"+args[0].Name)), "Bool")
+			}
+			return ghost(vc.heapOf(env.cur, vc.ghostInt("ChanCount_"+args[0].Name)), "Int")
 		case "ix":
 			a, b := env.tr(args[0]), env.tr(args[1])
 			return ghost("(ix "+a.T+" "+b.T+")", "Int")
